@@ -30,9 +30,15 @@ fn main() {
 fn replay_engine(path: &str) -> String {
     std::fs::read_to_string(path)
         .ok()
-        .and_then(|s| serde_json::from_str::<serde_json::Value>(&s).ok())
-        .and_then(|v| v.get("engine").and_then(|e| e.as_str()).map(|s| s.to_string()))
+        .and_then(|s| orch::from_json::<EngineOnly>(&s).ok())
+        .map(|v| v.engine)
         .unwrap_or_else(|| "M".into())
+}
+
+/// (only the engine tag of a replay file; everything else is skipped without building a value)
+#[derive(serde::Deserialize)]
+struct EngineOnly {
+    engine: String,
 }
 
 fn real_main() -> i32 {
@@ -227,7 +233,7 @@ fn real_main() -> i32 {
         Some("show") if args.len() >= 3 => {
             use printer::Print;
             let s = std::fs::read_to_string(&args[2]).expect("read");
-            let rp: orch::Replay = serde_json::from_str(&s).expect("parse");
+            let rp: orch::Replay = orch::from_json(&s).expect("parse");
             println!("property {} class {:?} backend {} config {} run {} minimised {}", rp.property, rp.class, rp.backend.name(), rp.config, rp.run, rp.minimised);
             println!("message: {}", rp.message);
             println!("plan: {:?}", rp.plan);
